@@ -207,6 +207,7 @@ static void pubfile_case(const KSI_Policy *policy, const char *pname, int form, 
 enum { K_ABSENT = 0, K_ENDS_BEFORE, K_ENDS_AT, K_CONTAINS, K_STARTS_AT, K_STARTS_AFTER, K_WRONG_KEY, K_BAD_SIGNATURE, K_STARTS_2106, K_ENDS_2106, K_NKIND };
 static const char *KNAME[K_NKIND] = {"cert-absent", "ends-before", "ends-exactly-at", "contains", "starts-exactly-at", "starts-after", "wrong-key", "altered-pki-signature", "starts-after-2^32", "ends-after-2^32"};
 
+static int g_key_noaggr;   /* the signature's calendar chain has no aggregation time element (publication time = aggregation time) */
 static void key_case(const KSI_Policy *policy, const char *pname, int form, int broken, int kkind, int src) {
 	KSI_CTX *ctx;
 	rsig s;
@@ -241,6 +242,12 @@ static void key_case(const KSI_Policy *policy, const char *pname, int form, int 
 	 * under the id the authentication record refers to */
 	rk_issue(&cert, kkind == K_WRONG_KEY ? 1 : 0, "calendar@verif.test", "Verif Calendar Key", nb, na);
 	fx_make_sig(&s, form, broken, NULL);
+	if (g_key_noaggr && s.has_cal) {
+		/* published in the second it was aggregated in: the calendar chain need not (and here does not) carry an aggregation time */
+		s.cal_pub_time = s.cal_aggr_time;
+		s.cal_has_aggr = 0;
+		if (rs_fix(&s, RS_FIX_CALSHAPE | RS_FIX_TAIL) != 0) vf_harness_error("fixture: calendar chain without aggregation time");
+	}
 	if (form == 3) {
 		rk_cert signer;
 		rk_issue(&signer, 0, "calendar@verif.test", "Verif Calendar Key", nb, na);
@@ -377,7 +384,7 @@ static int verify_now(KSI_CTX *ctx, KSI_Signature *sig, const KSI_Policy *policy
 static void part_reuse(void) {
 	int how, first_good, pol;
 	/* publications file: how 0 = the publications URL is changed, 1 = same URL, the cache lifetime passes, 2 = same URL, the file is set aside with KSI_CTX_setPublicationsFile(NULL) */
-	for (pol = 0; pol < 2; pol++) for (how = 0; how < 3; how++) for (first_good = 0; first_good < 2; first_good++) {
+	for (pol = 0; pol < 2; pol++) for (how = 0; how < 4; how++) for (first_good = 0; first_good < 2; first_good++) {
 		KSI_CTX *ctx;
 		rsig s;
 		vbuf sb, good, bad;
@@ -385,10 +392,12 @@ static void part_reuse(void) {
 		const KSI_Policy *policy = pol ? KSI_VERIFICATION_POLICY_GENERAL : KSI_VERIFICATION_POLICY_PUBLICATIONS_FILE_BASED;
 		int r1, r2, c1 = 0, c2 = 0;
 		long before;
-		if (!vf_case_begin("reuse:pubfile:%s:%s:%s-file-first", pol ? "general" : "pubfile-policy", how == 0 ? "url-changed" : how == 1 ? "cache-expired" : "file-set-aside", first_good ? "binding" : "other")) continue;
+		if (!vf_case_begin("reuse:pubfile:%s:%s:%s-file-first", pol ? "general" : "pubfile-policy", how == 0 ? "url-changed" : how == 1 ? "cache-expired" : how == 2 ? "file-set-aside" : "cache-lifetime-zero", first_good ? "binding" : "other")) continue;
 		fx_pki();
 		fx_server_install(FXE_NO_REPLY);
 		ctx = fx_ctx(0, 1);
+		/* how 3: a cache lifetime of 0 seconds - the file is fetched for every use, also within the same second */
+		if (how == 3 && KSI_CTX_setOption(ctx, KSI_OPT_PUBFILE_CACHE_TTL_SECONDS, (void *)(size_t)0) != KSI_OK) vf_harness_error("cache lifetime option");
 		fx_make_sig(&s, 2, 0, &fx_auth_cert);
 		vb_init(&sb); vb_init(&good); vb_init(&bad);
 		rs_serialize(&s, &sb);
@@ -403,9 +412,9 @@ static void part_reuse(void) {
 		before = FXS.pub_requests;
 		if (how == 0) { if (KSI_CTX_setPublicationUrl(ctx, "http://pub2.fx.test/other-publications.bin") != KSI_OK) vf_harness_error("setPublicationUrl"); }
 		else if (how == 1) sn_now += 8 * 3600 + 5;     /* default cache lifetime: 8 hours */
-		else { if (KSI_CTX_setPublicationsFile(ctx, NULL) != KSI_OK) vf_harness_error("setPublicationsFile(NULL)"); }
+		else if (how == 2) { if (KSI_CTX_setPublicationsFile(ctx, NULL) != KSI_OK) vf_harness_error("setPublicationsFile(NULL)"); }
 		r2 = verify_now(ctx, sig, policy, &c2);
-		vf_outcome("reuse:pubfile:%s:second-%s", how == 0 ? "url-changed" : how == 1 ? "cache-expired" : "file-set-aside", r2 == KSI_VER_RES_OK ? "OK" : "not-OK");
+		vf_outcome("reuse:pubfile:%s:second-%s", how == 0 ? "url-changed" : how == 1 ? "cache-expired" : how == 2 ? "file-set-aside" : "cache-lifetime-zero", r2 == KSI_VER_RES_OK ? "OK" : "not-OK");
 		if (FXS.pub_requests == before) vf_fail("stale-publications-file", "reuse: after %s no publications file was fetched for the second verification (result %d)", how == 0 ? "the publications URL was changed" : how == 1 ? "the cache lifetime had passed" : "the cached file was set aside", r2);
 		if (first_good && r2 == KSI_VER_RES_OK) vf_fail("unbound-ok", "reuse: the context's publications file no longer lists the signature's publication (%s) but the verdict is still OK", how == 0 ? "URL changed" : how == 1 ? "cache lifetime passed" : "file set aside");
 		if (!first_good && r2 != KSI_VER_RES_OK) vf_fail("bound-not-ok", "reuse: the context's publications file now lists the signature's publication (%s) but the verdict is %d (0x%x)", how == 0 ? "URL changed" : how == 1 ? "cache lifetime passed" : "file set aside", r2, c2);
@@ -482,6 +491,15 @@ static void run(void) {
 		key_case(KSI_VERIFICATION_POLICY_KEY_BASED, "key-policy", form, broken, k, src);
 		vf_case_end(1);
 	}
+	/* the same for a signature published in the second it was aggregated in (no aggregation time element in its calendar chain) */
+	g_key_noaggr = 1;
+	for (broken = 0; broken < 2; broken++) for (k = 0; k < K_NKIND; k++) for (src = 0; src < 2; src++) {   /* (the shape defect of broken = 2 would be repaired by rebuilding the chain) */
+		if (!vf_case_begin("key-noaggr:broken%d:%s:%s", broken, KNAME[k], SNAME[src])) continue;
+		key_case(KSI_VERIFICATION_POLICY_KEY_BASED, "key-policy", 3, broken, k, src);
+		key_case(KSI_VERIFICATION_POLICY_GENERAL, "general-policy", 3, broken, k, src);
+		vf_case_end(1);
+	}
+	g_key_noaggr = 0;
 	/* the same validity windows with the process in a time zone east / west of UTC: certificate times are UTC whatever the zone */
 	for (k = 0; k < K_NKIND; k++) for (src = 0; src < 2; src++) {
 		static const char *TZS[2] = {"EET-2", "PST8"};
